@@ -45,8 +45,8 @@ Definition ch_nul : ascii := ascii_of_nat 0.
 
 (* str.isspace() on the ASCII range: \t \n \v \f \r, FS GS RS US, space *)
 Definition is_space (c : ascii) : bool :=
-  let n := nat_of_ascii c in
-  ((9 <=? n)%nat && (n <=? 13)%nat) || ((28 <=? n)%nat && (n <=? 32)%nat).
+  let n := N_of_ascii c in
+  ((9 <=? n)%N && (n <=? 13)%N) || ((28 <=? n)%N && (n <=? 32)%N).
 
 Fixpoint lstrip (s : string) : string :=
   match s with
@@ -199,15 +199,32 @@ Definition register_unit (st : regstate) (sym name : string) (mult : Q) (row : c
 Definition taken (st : regstate) (sym name : string) : bool :=
   mem sym (rs_syms st) || mem name (rs_names st) || mem (name ++ "s") (name :: rs_names st).
 
-(* one iteration of the loop units.py:392-410 *)
-Definition register_currency (base_rate : Q) (st : regstate) (c : cur) : pres regstate :=
+(* `cname`: the currency's name reduced to an identifier — NFKD-normalised, ASCII letters and
+   digits only (units.py:399).  unicodedata is external: the reduction is a parameter of the
+   model; on ASCII names it is [ascii_alnum_only], for other names the harness (and
+   GenFacts/ConfigFacts.v for the built-in table) supply Python's answer as a table. *)
+Definition namenorm_t := string -> string.
+Definition is_ascii_alnum (c : ascii) : bool :=
+  let n := N_of_ascii c in
+  ((48 <=? n)%N && (n <=? 57)%N) || ((65 <=? n)%N && (n <=? 90)%N) || ((97 <=? n)%N && (n <=? 122)%N).
+Fixpoint ascii_alnum_only (s : string) : string :=
+  match s with
+  | EmptyString => EmptyString
+  | String c r => if is_ascii_alnum c then String c (ascii_alnum_only r) else ascii_alnum_only r
+  end.
+Definition name_norm (tbl : list (string * string)) : namenorm_t :=
+  fun s => match assoc s tbl with Some r => r | None => ascii_alnum_only s end.
+
+(* one iteration of the loop units.py:394-417 *)
+Definition register_currency (nn : namenorm_t) (base_rate : Q) (st : regstate) (c : cur) : pres regstate :=
   if Qeq_bool (c_rate c) 0 then PRaise "ZeroDivisionError"
   else
   let mul := base_rate / c_rate c in
-  if mem (c_name c) (rs_names st) && mem (c_sym c) (rs_syms st) then POk st
+  let cname := nn (c_name c) in
+  if mem cname (rs_names st) && mem (c_sym c) (rs_syms st) then POk st
   else
-  let name := if mem (c_name c) (rs_names st) then c_sym c else c_name c in
-  let sym := if mem (c_sym c) (rs_syms st) then c_name c else c_sym c in
+  let name := if mem cname (rs_names st) then c_sym c else cname in
+  let sym := if mem (c_sym c) (rs_syms st) then cname else c_sym c in
   let name := match assoc sym special_names with Some n => n | None => name end in
   if taken st sym name then POk st                                      (* R2 *)
   else
@@ -218,18 +235,18 @@ Definition register_currency (base_rate : Q) (st : regstate) (c : cur) : pres re
   | None => POk st1
   end).
 
-Fixpoint register_loop (base_rate : Q) (st : regstate) (t : list cur) : pres regstate :=
+Fixpoint register_loop (nn : namenorm_t) (base_rate : Q) (st : regstate) (t : list cur) : pres regstate :=
   match t with
   | [] => POk st
-  | c :: r => pbind (register_currency base_rate st c) (fun st' => register_loop base_rate st' r)
+  | c :: r => pbind (register_currency nn base_rate st c) (fun st' => register_loop nn base_rate st' r)
   end.
 
 (* `base = next(c for c in CURRENCY_DATA if c.symbol == BASE_CURRENCY)` then the loop *)
-Definition register_currencies (pre_names pre_syms : list string) (t : list cur) (base : string)
-  : pres regstate :=
+Definition register_currencies (nn : namenorm_t) (pre_names pre_syms : list string) (t : list cur)
+  (base : string) : pres regstate :=
   match find (fun c => String.eqb (c_sym c) base) t with
   | None => PRaise "StopIteration"
-  | Some b => register_loop (c_rate b) {| rs_names := pre_names; rs_syms := pre_syms; rs_cash := [] |} t
+  | Some b => register_loop nn (c_rate b) {| rs_names := pre_names; rs_syms := pre_syms; rs_cash := [] |} t
   end.
 
 (* the unit names and symbols that exist when the currency loop starts: everything in the live
@@ -269,10 +286,11 @@ Definition convert (st : regstate) (x : Q) (a b : string) : option Q :=
   end.
 
 (* the whole path from a table and a configured base *)
-Definition registry_for (t : list cur) (configured_base : string) : pres (option regstate) :=
+Definition registry_for (nn : namenorm_t) (t : list cur) (configured_base : string)
+  : pres (option regstate) :=
   match select_base configured_base t with
   | None => POk None
-  | Some b => pbind (register_currencies pre_names pre_syms t b) (fun st => POk (Some st))
+  | Some b => pbind (register_currencies nn pre_names pre_syms t b) (fun st => POk (Some st))
   end.
 
 Definition rates_positive (t : list cur) : Prop := Forall (fun c => 0 < c_rate c) t.
